@@ -146,7 +146,7 @@ def make_scenario(idx, mode, path, moment, entry, delay=None):
 
 def case_of(sc):
     c = {k: sc[k] for k in ("mode", "path", "moment", "entry", "delay")}
-    for k in ("backlog", "burst", "reuse", "enter_deadline"):
+    for k in ("backlog", "burst", "reuse", "enter_deadline", "polls"):
         if sc.get(k):
             c[k] = sc[k]
     return c
@@ -194,6 +194,12 @@ def gen_scenarios(ctx):
                 sc = make_scenario(len(scs), "well", path, "before", entry)
                 sc["enter_deadline"] = d
                 scs.append(sc)
+    # the client keeps sending on a connection whose child has died: 130 further requests (more than the outgoing queue holds)
+    for mode, moment in (("exit_ready", "before"), ("exit_recv", "after")):
+        for path in ("normal", "cancel_scope"):
+            sc = make_scenario(len(scs), mode, path, moment, rng.choice(ENTRIES))
+            sc["polls"] = 130
+            scs.append(sc)
     # the same StdioClient object used for a second conversation
     for mode in ("well", "ignore_term", "floods"):
         for path in ("normal", "cancel_scope"):
@@ -329,6 +335,15 @@ def evaluate(scs, results, model, spec, variant):
         ticks = max(0, int(math.ceil(r["dur"] * 100 - 1e-6)))
         spec_reqs.append(call(0, str(ticks), "(%d)" % STATE_CODE[r["state"]], str(r["fd_after"] - r["fd_before"])))
         spec_keys.append((v, "exit"))
+        if r.get("polls"):
+            pl = r["polls"]
+            if pl["hung"]:
+                v["spec"].append((f"request-on-a-dead-connection-never-ends:{sc['mode']}",
+                                  f"of {sc['polls']} requests (timeout 0.05 s) sent after the child had died, {pl['timeout']} timed out, "
+                                  f"{pl['error']} failed and then {pl['hung']} neither ended nor failed within 3 s"))
+            for o in pl["returns"][:1]:
+                spec_reqs.append(call(1, sx(list(r["written"])), pending_obs_sx(o)))
+                spec_keys.append((v, "poll"))
         for which in ("first", "pending"):
             if r.get(which) is not None:
                 spec_reqs.append(call(1, sx(list(r["written"])), pending_obs_sx(r[which])))
@@ -369,7 +384,7 @@ def evaluate(scs, results, model, spec, variant):
         else:
             if not s:
                 v["spec"].append((f"pending-request-fabricated-result:{sc['mode']}:{sc['moment']}",
-                                  f"{what} request returned {r[what]} but the child wrote {r['written']}"))
+                                  f"{what} request returned {r[what] if what in r else r['polls']['returns'][0]} but the child wrote {r['written']}"))
     # correspondence
     if model:
         pend_reqs, pend_keys = [], []
@@ -573,7 +588,7 @@ def replay(ctx, data):
             scs = [s for s in gen_spawn(tmp, 0) if s["spawn"] == case["spawn"] and s["entry"] == case["entry"]]
         else:
             scs = [make_scenario(0, case["mode"], case["path"], case["moment"], case["entry"], case.get("delay") or None)]
-            for k in ("backlog", "burst", "reuse", "enter_deadline"):
+            for k in ("backlog", "burst", "reuse", "enter_deadline", "polls"):
                 if case.get(k):
                     scs[0][k] = case[k]
         fails = 0
